@@ -466,6 +466,11 @@ def py2term(n):
         if isinstance(v, complex):
             return ('A', 'imag', repr(v.imag) + 'j')
         return ('A', 'bytes' if isinstance(v, bytes) else 'str', repr(v))
+    if (FLATTEN_BOOL[0] and isinstance(n, ast.UnaryOp) and isinstance(n.op, ast.Not) and isinstance(n.operand, ast.Compare)
+            and len(n.operand.ops) == 1 and type(n.operand.ops[0]) in (ast.Is, ast.IsNot, ast.In, ast.NotIn)):
+        # meaning: `not (a is b)` is `a is not b`, `not (a in b)` is `a not in b` (the compiler rewrites them)
+        neg = {ast.Is: ast.IsNot, ast.IsNot: ast.Is, ast.In: ast.NotIn, ast.NotIn: ast.In}[type(n.operand.ops[0])]()
+        return py2term(ast.Compare(left=n.operand.left, ops=[neg], comparators=n.operand.comparators))
     if isinstance(n, ast.UnaryOp):
         op = {ast.Not: 'not', ast.UAdd: 'pos', ast.USub: 'neg', ast.Invert: 'inv'}[type(n.op)]
         x = py2term(n.operand)
@@ -523,8 +528,15 @@ def py2term(n):
         return ('T', py2term(n.value), n.attr)
     if isinstance(n, ast.Call):
         items = [(x.lineno, x.col_offset, ('S', py2term(x.value)) if isinstance(x, ast.Starred) else ('P', py2term(x))) for x in n.args]
-        items += [(k.value.lineno, k.value.col_offset, ('SS', py2term(k.value)) if k.arg is None else ('K', k.arg, py2term(k.value)))
-                  for k in n.keywords]
+        for k in n.keywords:
+            v = k.value
+            if (FLATTEN_BOOL[0] and k.arg is None and isinstance(v, ast.Dict) and
+                    all(isinstance(x, ast.Constant) and isinstance(x.value, str) and x.value.isidentifier() for x in v.keys)):
+                # meaning: f(**{'a': 1}) is f(a=1), f(**{}) is f()  (the printer writes the keywords)
+                for j, (kk, vv) in enumerate(zip(v.keys, v.values)):
+                    items.append((v.lineno, v.col_offset + j * 1e-3, ('K', kk.value, py2term(vv))))
+            else:
+                items.append((v.lineno, v.col_offset, ('SS', py2term(v)) if k.arg is None else ('K', k.arg, py2term(v))))
         return ('F', py2term(n.func), [t for _, _, t in sorted(items, key=lambda z: z[:2])])
     if isinstance(n, ast.Subscript):
         s = n.slice
@@ -542,7 +554,7 @@ def py2term(n):
 def py_item(s):
     if isinstance(s, ast.Slice):
         # a[None:x] and a[:x] are the same slice object; the Cython tree does not distinguish them
-        return ('X',) + tuple(None if x is None or (isinstance(x, ast.Constant) and x.value is None) else py2term(x)
+        return ('X',) + tuple(None if x is None or (FLATTEN_BOOL[0] and isinstance(x, ast.Constant) and x.value is None) else py2term(x)
                               for x in (s.lower, s.upper, s.step))
     return ('P', py2term(s))
 
@@ -807,6 +819,10 @@ def run(ctx):
 
     cases = []      # (origin, src)
     rp = getattr(ctx, 'replay_case', None)
+    if rp and rp.get('case', {}).get('kind_module'):
+        import c25kind
+        c25kind.run_kinds(ctx)
+        return
     if rp and rp.get('case', {}).get('src'):
         cases.append(('replay', rp['case']['src']))
     else:
@@ -837,6 +853,8 @@ def run(ctx):
             ctx.notes['sig_leg'] = 'harness/c25sig.py missing'
         if c25sig is not None:
             c25sig.run_sig(ctx)
+        import c25kind
+        c25kind.run_kinds(ctx)
 
 
 def report_failing(ctx, failing, vw, tblw):
